@@ -2,6 +2,8 @@
 sibling agreement of the two `statistics`, pairwise-merge identity, divisor != 0."""
 from fractions import Fraction
 
+import ast
+
 from .. import terms as T
 from .. import ints
 from .common import *  # noqa: F401,F403
@@ -140,7 +142,11 @@ def _check_driver(ck, inst, ssite, p, owner, init, ow, nch):
     it = p.interp
     s, recv, r, kw = p.value
     ns = T.sym("num_samples")
-    loops = [l for l in it.loops if owner + ".statistics" in l["site"]]
+    # the draw loop is the summarised loop (in whichever function) whose body holds the call that advances the chains
+    smp_nodes = [n_ for k_, l_ in it.call_ast.items() if k_.endswith(".sample") and "Observable" not in k_ for n_ in l_]
+    loops = [l for l in it.loops if any(x is n_ for n_ in smp_nodes for x in ast.walk(l["node"]))]
+    if not loops:
+        loops = [l for l in it.loops if owner + ".statistics" in l["site"]]
     outer = [l for l in loops if l["generic"] is not None or l["first"] is not None]
     if not outer:
         if nch == "zero":
